@@ -1017,7 +1017,8 @@ pub fn gen_dec(rng: &mut Rng, thorough: bool, out: &mut String) {
     }
     // secp256k1 signatures with a chosen nonce (k = 1/2): r starts with eleven zero bytes
     for r in 0..(if thorough { 12 } else { 4 }) {
-        let m = rng.below(64);
+        // (few pairs: the record must stay below 300 bytes whatever the seed)
+        let m = rng.below(64) & 0b010011;
         let pairs = reserved_pairs(rng, m);
         let spec = Spec::new(*rng.pick(&SEQS), pairs, IndKey::gen(rng, Kind::Secp));
         if let Some(sig) = spec.key.sign_half_nonce(&rlp_list(&spec.content())) {
